@@ -4,7 +4,7 @@ from __future__ import annotations
 import ast
 
 import sympy as sp
-from sympy import Symbol
+from sympy import Symbol, Integer
 
 from ..core import src, AnalysisError
 from .. import units as U
@@ -77,21 +77,702 @@ def _resolved(fn, e, depth=4):
     return e
 
 
+# ------------------------------------------------------------------ whole-array (vectorised) kernels
+class Nd:
+    """whole-array value seen through its generic element: f(index tuple) -> element; ext[k] = extent of axis k (1 for an axis
+    made by np.newaxis, which broadcasts)"""
+
+    def __init__(self, f, ext, acc=None):
+        self.f, self.ext = f, list(ext)
+        self.acc = acc          # (root Nd, delta Nd): this value is root + delta, obtained by `+=` / `-=` statements only
+
+    @property
+    def rank(self):
+        return len(self.ext)
+
+
+class PartialOut(Exception):
+    pass
+
+
+def _array_ranks(mod_tree, fn):
+    """rank and 'may be complex' of each array parameter from the annotations ('float[:,:]', a TypeVar of such strings)"""
+    tv = {}
+    for st in mod_tree.body:
+        if isinstance(st, ast.Assign) and isinstance(st.value, ast.Call) and src(st.value.func).endswith("TypeVar"):
+            cons = [a.value for a in st.value.args[1:] if isinstance(a, ast.Constant) and isinstance(a.value, str)]
+            for t in st.targets:
+                if isinstance(t, ast.Name):
+                    tv[t.id] = cons
+    out = {}
+    for a in fn.args.args:
+        an = a.annotation
+        texts = []
+        if isinstance(an, ast.Constant) and isinstance(an.value, str):
+            texts = [an.value]
+        elif isinstance(an, ast.Name) and an.id in tv:
+            texts = tv[an.id]
+        ranks = {t.count(":") for t in texts if "[" in t}
+        if len(ranks) == 1:
+            out[a.arg] = (ranks.pop(), any("complex" in t for t in texts))
+    return out
+
+
+class VecKernel:
+    """element-wise reading of a loop-free kernel written with whole-array numpy operations (broadcasting, einsum, dot/matmul/
+    tensordot with the last axis, sum over an axis, out=).  Nothing is executed: every array is its generic element, a
+    contraction is a symbolic Sum.  What is outside this fragment raises Undecided."""
+
+    def __init__(self, fn, ranks):
+        self.fn = fn
+        self.env = {}
+        self.ranks = ranks
+        for n_, (r, cplx) in ranks.items():
+            fnc = sp.Function(n_)
+            self.env[n_] = Nd((lambda ix, fnc=fnc: fnc(*ix)), [Symbol(f"n{k}_{n_}", integer=True, positive=True) for k in range(r)])
+        for a in fn.args.args:
+            if a.arg not in self.env:
+                self.env[a.arg] = Symbol(a.arg, real=True)
+        self.written = {}       # array parameter -> (Nd, part) ; part None = the whole array, 'real' / 'imag' = that part only
+        self.nsum = 0
+        self.loops = []         # (symbol, extent) of the enclosing `for x in range(extent)` loops
+        self.rows = {}          # array parameter -> {key: Nd}: views written point-wise in loops; key[k] = loop symbol | None (whole axis)
+
+    # -- helpers
+    def dummy(self):
+        self.nsum += 1
+        return Symbol("l" if self.nsum == 1 else f"l{self.nsum}", integer=True)
+
+    def bcast(self, vals):
+        nds = [v for v in vals if isinstance(v, Nd)]
+        R = max(v.rank for v in nds)
+        ext = []
+        for k in range(R):
+            e_k = Integer1
+            for v in nds:
+                kk = k - (R - v.rank)
+                if kk >= 0 and v.ext[kk] != 1:
+                    e_k = v.ext[kk]
+                    break
+            ext.append(e_k)
+        return R, ext
+
+    def elem(self, v, ix, R):
+        if not isinstance(v, Nd):
+            return v
+        sub = ix[R - v.rank:]
+        return v.f(tuple(sp.Integer(0) if v.ext[k] == 1 else sub[k] for k in range(v.rank)))
+
+    def lift(self, vals, op):
+        if not any(isinstance(v, Nd) for v in vals):
+            return op(*vals)
+        R, ext = self.bcast(vals)
+        return Nd((lambda ix, vals=vals, R=R: op(*[self.elem(v, ix, R) for v in vals])), ext)
+
+    def contract(self, a, ax_a, b, ax_b):
+        """sum over axis ax_a of a and ax_b of b; result axes: the other axes of a, then the other axes of b"""
+        l = self.dummy()
+        n = a.ext[ax_a] if a.ext[ax_a] != 1 else b.ext[ax_b]
+        ra, rb = a.rank - 1, b.rank - 1
+
+        def f(ix, a=a, b=b, l=l, n=n):
+            ia = list(ix[:ra])
+            ia.insert(ax_a, l)
+            ib = list(ix[ra:ra + rb])
+            ib.insert(ax_b, l)
+            return sp.Sum(a.f(tuple(ia)) * b.f(tuple(ib)), (l, 0, n - 1))
+        return Nd(f, [e for k, e in enumerate(a.ext) if k != ax_a] + [e for k, e in enumerate(b.ext) if k != ax_b])
+
+    def axis_of(self, node, rank):
+        if isinstance(node, ast.UnaryOp) and isinstance(node.op, ast.USub) and isinstance(node.operand, ast.Constant):
+            return rank - node.operand.value
+        if isinstance(node, ast.Constant) and isinstance(node.value, int):
+            return node.value if node.value >= 0 else rank + node.value
+        raise Undecided(f"axis `{src(node)}`")
+
+    # -- expressions
+    def ev(self, e):
+        if isinstance(e, ast.Constant):
+            if e.value is None:
+                return None
+            if isinstance(e.value, (int, float)) and not isinstance(e.value, bool):
+                return sp.Integer(e.value) if isinstance(e.value, int) else sp.Rational(repr(e.value))
+            raise Undecided(f"constant {e.value!r}")
+        if isinstance(e, ast.Name):
+            if e.id in self.env:
+                return self.env[e.id]
+            raise Undecided(f"unknown name `{e.id}`")
+        if isinstance(e, ast.Attribute):
+            if src(e) in ("np.newaxis", "numpy.newaxis"):
+                return None
+            if e.attr in ("real", "imag") and isinstance(e.value, ast.Name) and e.value.id in self.ranks:
+                if self.ranks[e.value.id][1]:
+                    raise Undecided(f"`{src(e)}` of a possibly complex array")
+                if e.attr == "real":
+                    return self.env[e.value.id]
+            if e.attr == "T":
+                v = self.ev(e.value)
+                if isinstance(v, Nd):
+                    return Nd((lambda ix, v=v: v.f(tuple(reversed(ix)))), list(reversed(v.ext)))
+            if e.attr == "shape":
+                v = self.ev(e.value)
+                if isinstance(v, Nd):
+                    return tuple(v.ext)
+            raise Undecided(f"attribute `{src(e)[:40]}`")
+        if isinstance(e, ast.Tuple):
+            return tuple(self.ev(x) for x in e.elts)
+        if isinstance(e, ast.UnaryOp) and isinstance(e.op, (ast.USub, ast.UAdd)):
+            v = self.ev(e.operand)
+            return self.lift([v], (lambda x: -x)) if isinstance(e.op, ast.USub) else v
+        if isinstance(e, ast.BinOp):
+            a, b = self.ev(e.left), self.ev(e.right)
+            if isinstance(e.op, ast.MatMult):
+                return self.matmul(a, b)
+            ops = {ast.Add: lambda x, y: x + y, ast.Sub: lambda x, y: x - y, ast.Mult: lambda x, y: x * y, ast.Div: lambda x, y: x / y}
+            if type(e.op) not in ops or a is None or b is None or isinstance(a, tuple) or isinstance(b, tuple):
+                raise Undecided(f"operator in `{src(e)[:40]}`")
+            return self.lift([a, b], ops[type(e.op)])
+        if isinstance(e, ast.Subscript):
+            if isinstance(e.value, ast.Name) and self.rows.get(e.value.id):
+                key = self.key_of(e, e.value.id)
+                if key in self.rows[e.value.id]:
+                    return self.rows[e.value.id][key]
+                raise Undecided(f"`{src(e)[:40]}` read while other parts of `{e.value.id}` are being written in a loop")
+            base = self.ev(e.value)
+            if isinstance(base, tuple):
+                i = self.ev(e.slice)
+                if getattr(i, "is_Integer", False):
+                    return base[int(i)]
+            if not isinstance(base, Nd):
+                raise Undecided(f"subscript `{src(e)[:40]}`")
+            items = list(e.slice.elts) if isinstance(e.slice, ast.Tuple) else [e.slice]
+            n_real = sum(1 for x in items if not (isinstance(x, ast.Constant) and x.value in (None, Ellipsis)) and src(x) not in ("np.newaxis", "numpy.newaxis"))
+            exp = []
+            for x in items:
+                if isinstance(x, ast.Constant) and x.value is Ellipsis:
+                    exp.extend(["full"] * (base.rank - n_real))
+                elif (isinstance(x, ast.Constant) and x.value is None) or src(x) in ("np.newaxis", "numpy.newaxis"):
+                    exp.append("new")
+                elif isinstance(x, ast.Slice):
+                    if x.lower is not None or x.upper is not None or x.step is not None:
+                        raise Undecided(f"partial slice in `{src(e)[:40]}`")
+                    exp.append("full")
+                else:
+                    v = self.ev(x)
+                    if isinstance(v, Nd) or v is None or isinstance(v, tuple):
+                        raise Undecided(f"index `{src(x)[:30]}`")
+                    exp.append(("at", v))
+            exp.extend(["full"] * (base.rank - sum(1 for x in exp if x != "new")))
+            if sum(1 for x in exp if x != "new") != base.rank:
+                raise Undecided(f"too many indices in `{src(e)[:40]}`")
+            ext, k = [], 0
+            for x in exp:
+                if x == "new":
+                    ext.append(1)
+                elif x == "full":
+                    ext.append(base.ext[k])
+                    k += 1
+                else:
+                    k += 1
+
+            def f(ix, base=base, exp=exp):
+                out, j = [], 0
+                for x in exp:
+                    if x == "new":
+                        j += 1
+                    elif x == "full":
+                        out.append(ix[j])
+                        j += 1
+                    else:
+                        out.append(x[1])
+                return base.f(tuple(out))
+            if not ext:
+                return f(())
+            return Nd(f, ext)
+        if isinstance(e, ast.Call):
+            return self.call(e)
+        raise Undecided(f"expression `{src(e)[:40]}`")
+
+    def matmul(self, a, b):
+        if not (isinstance(a, Nd) and isinstance(b, Nd)):
+            raise Undecided("matrix product of non-arrays")
+        if b.rank == 1:
+            return self.contract(a, a.rank - 1, b, 0)
+        if b.rank == 2 and a.rank <= 2:
+            return self.contract(a, a.rank - 1, b, 0)
+        raise Undecided("matrix product of stacked matrices")
+
+    def call(self, e):
+        f = src(e.func)
+        name = f.split(".")[-1]
+        kws = {k.arg: k.value for k in e.keywords}
+        out = kws.pop("out", None)
+        is_np = f.startswith(("np.", "numpy."))
+        res = None
+        if is_np and name == "einsum" and e.args and isinstance(e.args[0], ast.Constant) and isinstance(e.args[0].value, str):
+            spec = e.args[0].value.replace(" ", "")
+            if "->" not in spec or "." in spec:
+                raise Undecided(f"einsum subscripts `{spec}`")
+            ins, outl = spec.split("->")
+            ins = ins.split(",")
+            ops = [self.ev(a) for a in e.args[1:]]
+            if len(ins) != len(ops) or not all(isinstance(o, Nd) and o.rank == len(t) for o, t in zip(ops, ins)) or \
+                    any(len(set(t)) != len(t) for t in ins + [outl]):
+                raise Undecided(f"einsum operands do not fit `{spec}`")
+            summed = [c for c in dict.fromkeys("".join(ins)) if c not in outl]
+            extent = {}
+            for o, t in zip(ops, ins):
+                for k, c in enumerate(t):
+                    if o.ext[k] != 1 and c not in extent:
+                        extent[c] = o.ext[k]
+            dums = {c: self.dummy() for c in summed}
+
+            def g(ix, ops=ops, ins=ins, outl=outl, dums=dums, extent=extent):
+                val = dict(zip(outl, ix))
+                val.update(dums)
+                term = sp.Integer(1)
+                for o, t in zip(ops, ins):
+                    term = term * o.f(tuple(sp.Integer(0) if o.ext[k] == 1 else val[c] for k, c in enumerate(t)))
+                for c, d in dums.items():
+                    term = sp.Sum(term, (d, 0, extent[c] - 1))
+                return term
+            res = Nd(g, [extent.get(c, 1) for c in outl])
+        elif is_np and name in ("dot", "matmul") and len(e.args) == 2:
+            res = self.matmul(self.ev(e.args[0]), self.ev(e.args[1]))
+        elif is_np and name == "tensordot" and len(e.args) >= 2:
+            a, b = self.ev(e.args[0]), self.ev(e.args[1])
+            ax = kws.get("axes", e.args[2] if len(e.args) > 2 else None)
+            if not (isinstance(a, Nd) and isinstance(b, Nd)) or ax is None:
+                raise Undecided("tensordot")
+            if isinstance(ax, ast.Constant) and ax.value == 1:
+                res = self.contract(a, a.rank - 1, b, 0)
+            elif isinstance(ax, (ast.Tuple, ast.List)) and len(ax.elts) == 2:
+                pa, pb = [x.elts[0] if isinstance(x, (ast.Tuple, ast.List)) and len(x.elts) == 1 else x for x in ax.elts]
+                res = self.contract(a, self.axis_of(pa, a.rank), b, self.axis_of(pb, b.rank))
+            else:
+                raise Undecided("tensordot axes")
+        elif name == "sum" and (is_np or isinstance(e.func, ast.Attribute)):
+            a = self.ev(e.args[0]) if is_np else self.ev(e.func.value)
+            rest = e.args[1:] if is_np else e.args
+            axn = kws.get("axis", rest[0] if rest else None)
+            if not isinstance(a, Nd) or axn is None:
+                raise Undecided("sum without an axis")
+            ax = self.axis_of(axn, a.rank)
+            l = self.dummy()
+            n = a.ext[ax]
+
+            def g(ix, a=a, ax=ax, l=l, n=n):
+                ia = list(ix)
+                ia.insert(ax, l)
+                return sp.Sum(a.f(tuple(ia)), (l, 0, n - 1))
+            res = Nd(g, [x for k, x in enumerate(a.ext) if k != ax])
+        elif is_np and name in ("multiply", "subtract", "add") and len(e.args) == 2:
+            op = {"multiply": lambda x, y: x * y, "subtract": lambda x, y: x - y, "add": lambda x, y: x + y}[name]
+            res = self.lift([self.ev(e.args[0]), self.ev(e.args[1])], op)
+        elif is_np and name in ("asarray", "ascontiguousarray", "real", "array", "copy") and len(e.args) == 1:
+            res = self.ev(e.args[0])
+        elif is_np and name in ("zeros_like", "zeros") and e.args:
+            shp = self.ev(e.args[0])
+            ext = shp.ext if isinstance(shp, Nd) else list(shp) if isinstance(shp, tuple) else None
+            if ext is None:
+                raise Undecided("zeros shape")
+            res = Nd((lambda ix: sp.Integer(0)), ext)
+        elif name == "copy" and isinstance(e.func, ast.Attribute) and not e.args:
+            res = self.ev(e.func.value)
+        else:
+            raise Undecided(f"call `{src(e)[:50]}`")
+        if out is not None:
+            self.store(out, res)
+        return res
+
+    # -- stores
+    def key_of(self, t, name):
+        """per-axis pattern of a subscript of array `name`: a loop symbol (the axis is addressed point-wise by that loop) or None (the
+        whole axis); Undecided for anything else"""
+        items = list(t.slice.elts) if isinstance(t.slice, ast.Tuple) else [t.slice]
+        rank = self.ranks[name][0]
+        syms = {s_ for s_, _ in self.loops}
+        key = []
+        for x in items:
+            if isinstance(x, ast.Constant) and x.value is Ellipsis:
+                key.extend([None] * (rank - (len(items) - 1)))
+            elif isinstance(x, ast.Slice):
+                if x.lower is not None or x.upper is not None or x.step is not None:
+                    raise Undecided(f"store into part of an array `{src(t)[:40]}`")
+                key.append(None)
+            else:
+                v = self.ev(x)
+                if v not in syms:
+                    raise Undecided(f"index `{src(x)[:30]}` of `{src(t)[:40]}` is not the variable of an enclosing loop")
+                key.append(v)
+        key.extend([None] * (rank - len(key)))
+        if len(key) != rank or len({k for k in key if k is not None}) != len([k for k in key if k is not None]):
+            raise Undecided(f"index pattern of `{src(t)[:40]}`")
+        return tuple(key)
+
+    def target_array(self, t):
+        """(array parameter, part, key) of a store target: the whole array, one part (real / imag) of a complex one, or the view
+        addressed by loop variables"""
+        part, key = None, None
+        if isinstance(t, ast.Subscript):
+            inner = t.value
+            if isinstance(inner, ast.Attribute) and inner.attr in ("real", "imag") and isinstance(inner.value, ast.Name):
+                part, name_node = inner.attr, inner.value
+            else:
+                name_node = inner
+            if not (isinstance(name_node, ast.Name) and name_node.id in self.ranks):
+                raise Undecided(f"store target `{src(t)[:40]}`")
+            key = self.key_of(t, name_node.id)
+            t = name_node
+        elif isinstance(t, ast.Attribute) and t.attr in ("real", "imag") and isinstance(t.value, ast.Name):
+            part, t = t.attr, t.value
+        if isinstance(t, ast.Name) and t.id in self.ranks:
+            if part is not None and not self.ranks[t.id][1]:
+                part = None if part == "real" else part
+            if key is not None and all(k is None for k in key):
+                key = None
+            return t.id, part, key
+        raise Undecided(f"store target `{src(t)[:40]}`")
+
+    def view(self, name, key):
+        """current content of the view `key` of array `name`"""
+        if key in self.rows.get(name, {}):
+            return self.rows[name][key]
+        if self.rows.get(name):
+            raise Undecided(f"a view of `{name}` is read while other views of it are being written in a loop")
+        whole = self.env[name]
+        return Nd((lambda ix, whole=whole, key=key: whole.f(self.full_index(key, ix))), [e for k, e in zip(key, whole.ext) if k is None])
+
+    @staticmethod
+    def full_index(key, ix):
+        out, j = [], 0
+        for k in key:
+            if k is None:
+                out.append(ix[j])
+                j += 1
+            else:
+                out.append(k)
+        return tuple(out)
+
+    def store(self, t, val, acc=None):
+        name, part, key = self.target_array(t)
+        if not isinstance(val, Nd):
+            val = Nd((lambda ix, val=val: val), [])
+        if key is not None:
+            if part is not None:
+                raise Undecided(f"store into one part of a view `{src(t)[:40]}`")
+            free = [e for k, e in zip(key, self.env[name].ext) if k is None]
+            R = len(free)
+            if val.rank > R:
+                raise Undecided(f"value of rank {val.rank} stored into `{src(t)[:40]}`")
+            self.rows.setdefault(name, {})[key] = Nd((lambda ix, val=val, R=R: self.elem(val, ix, R)), free, acc=acc)
+            return
+        if self.rows.get(name):
+            raise Undecided(f"`{name}` is stored as a whole while views of it are being written in a loop")
+        self.written[name] = (val, part)
+        if part is None:
+            old = self.env[name]
+            R = old.rank
+            self.env[name] = Nd((lambda ix, val=val, R=R: self.elem(val, ix, R)), old.ext, acc=acc)
+
+    def run(self):
+        self.block(self.fn.body)
+        for name, views in self.rows.items():
+            if views:
+                raise Undecided(f"views {list(views)} of `{name}` written in loops do not cover the array")
+        return self
+
+    def loop(self, st):
+        it = st.iter
+        if not (isinstance(st.target, ast.Name) and isinstance(it, ast.Call) and src(it.func) == "range" and len(it.args) == 1
+                and not it.keywords and not st.orelse):
+            raise Undecided(f"loop `for {src(st.target)} in {src(it)[:40]}`")
+        N = self.ev(it.args[0])
+        if not isinstance(N, sp.Basic):
+            raise Undecided(f"loop bound `{src(it.args[0])}`")
+        x = Symbol(st.target.id, integer=True)
+        if any(x == s_ for s_, _ in self.loops):
+            raise Undecided("nested loops over one name")
+        before_env = {n_: self.env[n_] for n_ in self.ranks}
+        before_rows = {n_: dict(v) for n_, v in self.rows.items()}
+        self.loops.append((x, N))
+        saved = self.env.get(st.target.id)
+        self.env[st.target.id] = x
+        try:
+            self.block(st.body)
+        finally:
+            self.loops.pop()
+            if saved is None:
+                self.env.pop(st.target.id, None)
+            else:
+                self.env[st.target.id] = saved
+
+        def close(after, before, what):
+            """value after all passes of the loop over x, given the value after one pass (x symbolic) and the value before it"""
+            if after is before:
+                return after
+            if after.acc is not None and after.acc[0] is before:
+                delta = after.acc[1]
+                R = after.rank
+
+                def f(ix, before=before, delta=delta, R=R):
+                    d = sp.expand(self.elem(delta, ix, R))
+                    return before.f(ix) + (sp.Sum(d, (x, 0, N - 1)) if x in d.free_symbols else N * d)
+                return Nd(f, after.ext, acc=None)
+            probe = after.f(tuple(Symbol(f"_p{k}", integer=True) for k in range(after.rank)))
+            if x in getattr(probe, "free_symbols", set()):
+                raise Undecided(f"{what} is overwritten in every pass of the loop over `{x}` with a value that depends on `{x}`")
+            return after
+        for n_ in self.ranks:
+            if self.env[n_] is not before_env[n_]:
+                self.env[n_] = close(self.env[n_], before_env[n_], f"`{n_}`")
+                if n_ in self.written:
+                    self.written[n_] = (self.env[n_], self.written[n_][1])
+        for n_, views in list(self.rows.items()):
+            new_views = {}
+            for key, v in views.items():
+                if x not in key:
+                    b_ = before_rows.get(n_, {}).get(key)
+                    if b_ is None:
+                        if v.acc is not None:
+                            raise Undecided(f"a view of `{n_}` is accumulated in the loop over `{x}` without a value before the loop")
+                        probe = v.f(tuple(Symbol(f"_p{k}", integer=True) for k in range(v.rank)))
+                        if x in getattr(probe, "free_symbols", set()):
+                            raise Undecided(f"a view of `{n_}` is overwritten in every pass of the loop over `{x}`")
+                        new_views[key] = v
+                    else:
+                        new_views[key] = close(v, b_, f"a view of `{n_}`")
+                    continue
+                # written point-wise by this loop: covers the axis when the loop runs over its whole extent
+                ax = key.index(x)
+                ext = self.env[n_].ext[ax]
+                dN = sp.simplify(N - ext)
+                if dN.is_number and dN < 0:
+                    raise PartialOut(f"the loop over `{x}` that stores into `{n_}` runs over range({N}) but axis {ax} of `{n_}` has {ext} "
+                                     f"entries: the last {-dN} of them are never written and keep whatever the array held before the call")
+                if dN != 0:
+                    raise Undecided(f"the loop over `{x}` runs to {N} but axis {ax} of `{n_}` has {ext} entries")
+                nk = tuple(None if k == x else k for k in key)
+                pos = sum(1 for k in nk[:ax] if k is None)
+
+                def g(ix, v=v, pos=pos):
+                    inner = ix[:pos] + ix[pos + 1:]
+                    return v.f(tuple(inner)).subs(x, ix[pos]) if hasattr(v.f(tuple(inner)), "subs") else v.f(tuple(inner))
+                nv = Nd(g, [e_ for k, e_ in zip(nk, self.env[n_].ext) if k is None])
+                if nk in new_views:
+                    raise Undecided(f"two views of `{n_}` coincide after the loop over `{x}`")
+                new_views[nk] = nv
+            self.rows[n_] = new_views
+            whole = tuple([None] * self.ranks[n_][0])
+            if whole in new_views and len(new_views) == 1 and not self.loops:
+                v = new_views.pop(whole)
+                self.env[n_] = v
+                self.written[n_] = (v, None)
+
+    def block(self, stmts):
+        for st in stmts:
+            if isinstance(st, ast.Expr) and isinstance(st.value, ast.Constant):
+                continue
+            if isinstance(st, (ast.Import, ast.ImportFrom, ast.Pass, ast.Assert)):
+                continue
+            if isinstance(st, ast.For):
+                self.loop(st)
+            elif isinstance(st, ast.Expr) and isinstance(st.value, ast.Call):
+                self.call(st.value)
+            elif isinstance(st, ast.Assign) and len(st.targets) == 1:
+                t = st.targets[0]
+                v = self.ev(st.value)
+                if isinstance(t, ast.Name) and t.id not in self.ranks:
+                    if self.loops and isinstance(v, Nd):
+                        pass
+                    self.env[t.id] = v
+                elif isinstance(t, ast.Tuple) and isinstance(v, tuple) and len(v) == len(t.elts) and all(isinstance(x, ast.Name) for x in t.elts):
+                    for x, y in zip(t.elts, v):
+                        self.env[x.id] = y
+                elif isinstance(t, (ast.Subscript, ast.Attribute)):
+                    self.store(t, v)
+                else:
+                    raise Undecided(f"assignment `{src(st)[:50]}`")
+            elif isinstance(st, ast.AugAssign) and isinstance(st.op, (ast.Add, ast.Sub, ast.Mult)):
+                v = self.ev(st.value)
+                tgt = st.target
+                scalar = isinstance(tgt, ast.Name) and tgt.id not in self.ranks
+                if scalar:
+                    if tgt.id not in self.env:
+                        raise Undecided(f"`{src(st)[:40]}` updates an unknown name")
+                    if self.loops:
+                        raise Undecided(f"scalar `{tgt.id}` carried through a loop")
+                    cur = self.env[tgt.id]
+                else:
+                    name, part, key = self.target_array(tgt)
+                    if part is not None:
+                        raise Undecided(f"update of one part `{src(st)[:40]}`")
+                    cur = self.env[name] if key is None else self.view(name, key)
+                op = {ast.Add: lambda x, y: x + y, ast.Sub: lambda x, y: x - y, ast.Mult: lambda x, y: x * y}[type(st.op)]
+                new = self.lift([cur, v], op)
+                if scalar:
+                    self.env[tgt.id] = new
+                    continue
+                acc = None
+                if isinstance(st.op, (ast.Add, ast.Sub)) and isinstance(cur, Nd):
+                    sign = 1 if isinstance(st.op, ast.Add) else -1
+                    dv = v if sign == 1 else self.lift([v], lambda y: -y)
+                    if cur.acc is not None:
+                        acc = (cur.acc[0], self.lift([cur.acc[1], dv], lambda a_, b_: a_ + b_))
+                    else:
+                        acc = (cur, dv)
+                self.store(tgt, new, acc=acc)
+            else:
+                raise Undecided(f"statement `{src(st)[:50]}`")
+
+
+Integer1 = 1
+
+
+def vectorised_formula(chk, rel, fn0, name, perturbed):
+    """second reading of a kernel the loop interpreter cannot follow: the whole-array fragment. -> True when an obligation was made"""
+    ranks = _array_ranks(chk.mod(rel).tree, fn0)
+    if "rho" not in ranks or any(isinstance(n, ast.While) for n in ast.walk(fn0)):
+        return False
+    vk = VecKernel(fn0, ranks)
+    label = "rho[i,j,k] = sum_l w_l (f[i,j,k,l]" + (" - f_eq[i,l])" if perturbed else ")")
+    try:
+        vk.run()                       # Undecided propagates to the caller
+    except PartialOut as e:
+        chk.ob("F3-density-sum", fn0, label, False, f"{e}: rho is not the velocity integral there", file=rel, func=name)
+        return True
+    if "rho" not in vk.written:
+        raise Undecided("no store into the whole of `rho` found")
+    val, part = vk.written["rho"]
+    i, j, k, l = (Symbol(n, integer=True) for n in "ijkl")
+    # the generic element is taken at index symbols that no loop variable of the kernel can be called
+    probes = tuple(Symbol(f"_p{n}", integer=True) for n in range(3))
+    got = vk.elem(val, probes, 3) if val.rank <= 3 else None
+    if got is None:
+        raise Undecided("rank of the stored value")
+    got = sp.sympify(got)
+    nc = Symbol("n0_quad_coeffs", integer=True, positive=True)
+    # the extents of the contracted axes are equal by the kernels' contract (index-space rules of C05): one name for them
+    got = got.subs({Symbol("n3_grid", integer=True, positive=True): nc, Symbol("n1_feq", integer=True, positive=True): nc})
+    q, g, fe = sp.Function("quad_coeffs"), sp.Function("grid"), sp.Function("feq")
+    row, coff = (i, sp.Integer(0))
+    spec = None
+    # one name for the summation variables of sums over the same range (a difference of two contractions is one contraction)
+    sums = list(got.atoms(sp.Sum))
+    nested = any(s_.function.has(sp.Sum) for s_ in sums)
+    if not nested:
+        got = got.xreplace({s_: sp.Sum(s_.function.subs(s_.limits[0][0], l), (l,) + tuple(s_.limits[0][1:])) for s_ in sums
+                            if len(s_.limits) == 1})
+    stray = got.free_symbols & {s_ for s_ in (i, j, k)}
+    if stray:
+        raise Undecided(f"variables {sorted(map(str, stray))} of the kernel's loops remain in the stored value")
+    got = got.subs(dict(zip(probes, (i, j, k))), simultaneous=True)
+    if perturbed:
+        row, coff = _row_of_equilibrium(got, fe, i, (j, k, l))
+        KERNEL_ROW_OFFSET[name] = coff
+    term = q(l) * (g(i, j, k, l) - (fe(row, l) if perturbed else 0))
+    spec = sp.Sum(term, (l, 0, nc - 1))
+    ok = alg_equal(got, spec)
+    if not ok and (nested or len({s_.limits for s_ in got.atoms(sp.Sum)}) > 1):
+        raise Undecided(f"whole-array formula {str(got)[:120]} is not in a comparable form")
+    label = "rho[i,j,k] = sum_l w_l (f[i,j,k,l]" + (" - f_eq[i,l])" if perturbed else ")")
+    if ok and part is not None:
+        chk.ob("F3-density-sum", fn0, label, False,
+               f"the kernel writes the weighted sum into `rho.{part}` only, and `rho` may be complex (its annotation admits "
+               f"complex128[:,:,:], the storage the simulation uses because rho later holds its Fourier modes): the "
+               f"{'imaginary' if part == 'real' else 'real'} part is not written and keeps whatever the array held before the call, so "
+               "rho is not the velocity integral", file=rel, func=name, facts={"code": str(got)[:300], "spec": str(spec), "part": part})
+        return True
+    if part is not None:
+        raise Undecided(f"store into `rho.{part}` of a formula that is not recognised")
+    chk.ob("F3-density-sum", fn0, label, bool(ok),
+           "density is the weighted sum over v of " + ("f minus the equilibrium of the same radius row" if perturbed else "f") +
+           " (whole-array form)" if ok else f"extracted formula {str(got)[:200]} differs from the specification {spec}",
+           file=rel, func=name, facts={"code": str(got)[:300], "spec": str(spec)})
+    return True
+
+
+KERNEL_ROW_OFFSET = {}          # kernel name -> offset c of the equilibrium row it reads: feq[i + c, l] (0, or a scalar parameter)
+
+
+def _row_of_equilibrium(got, fe, i, others):
+    """the row of the equilibrium table the extracted formula reads at radial index i, when it is i plus something that does not
+    vary with the point (a scalar parameter: the table then holds the rows of a larger range, shifted by that parameter) -> (row, c)"""
+    rows = {a.args[0] for a in got.atoms(sp.Function) if a.func == fe and len(a.args) == 2}
+    if len(rows) != 1:
+        return i, sp.Integer(0)
+    R = rows.pop()
+    c = sp.expand(R - i)
+    if c.free_symbols & (set(others) | {i}):
+        return i, sp.Integer(0)
+    return R, c
+
+
+def _whole_array_features(fn, ranks):
+    """does the kernel use whole-array operations (slices, matrix products, numpy reductions, an array indexed with fewer indices
+    than it has axes)?  Such code is read by the rank-aware whole-array model; pure element loops by the loop interpreter."""
+    for n in ast.walk(fn):
+        if isinstance(n, ast.BinOp) and isinstance(n.op, ast.MatMult):
+            return True
+        if isinstance(n, ast.Slice) or (isinstance(n, ast.Constant) and n.value is Ellipsis):
+            return True
+        if isinstance(n, ast.Call) and src(n.func).startswith(("np.", "numpy.")):
+            return True
+        if isinstance(n, ast.Call) and isinstance(n.func, ast.Attribute) and n.func.attr in ("sum", "dot"):
+            return True
+        if isinstance(n, ast.Subscript) and isinstance(n.value, ast.Name) and n.value.id in ranks and ranks[n.value.id][0] > 1:
+            k = len(n.slice.elts) if isinstance(n.slice, ast.Tuple) else 1
+            if k < ranks[n.value.id][0]:
+                return True
+    return False
+
+
 def kernel_formula(chk, rel, name, perturbed):
     fn = chk.func(rel, name)
+    fn0 = fn
     args = make_args(fn, arrays=("rho",))
     fn = merge_partial_views(fn)
-    ex = SymExec(fn, args, calls=dict(SPLINE_HANDLERS))
-    try:
-        ex.run()
-    except Undecided as e:
-        chk.ob("F3-density-sum", fn, name, None, f"kernel outside the extractable fragment: {e}", file=rel, func=name)
+    ranks = _array_ranks(chk.mod(rel).tree, fn0)
+    loop_free = not any(isinstance(n, (ast.For, ast.While)) for n in ast.walk(fn0))
+    whole = loop_free or _whole_array_features(fn, ranks)
+    errs = []
+    if whole:
+        # whole-array code (possibly inside loops over some axes): the rank-aware model; the loop interpreter lifts operators
+        # element-wise without ranks and is not asked
+        try:
+            if vectorised_formula(chk, rel, fn0, name, perturbed):
+                return
+            errs.append("as whole-array code: not applicable")
+        except Undecided as e2:
+            errs.append(f"as whole-array code: {e2}")
+        chk.ob("F3-density-sum", fn, name, None, f"kernel outside the extractable fragment: {'; '.join(errs)}", file=rel, func=name)
         return
+    ex = SymExec(fn, args, calls=dict(SPLINE_HANDLERS))
     i, j, k, l = (Symbol(n, integer=True) for n in "ijkl")
-    got = ex.env["rho"].read([i, j, k])
+    try:
+        try:
+            ex.run()
+            got = ex.env["rho"].read([i, j, k])
+        except Undecided:
+            raise
+        except Exception as ie:              # the loop interpreter met a construct it does not model
+            raise Undecided(f"loop interpreter: {type(ie).__name__}: {ie}")
+    except Undecided as e:
+        errs.append(str(e))
+        try:
+            if vectorised_formula(chk, rel, fn0, name, perturbed):
+                return
+        except Undecided as e2:
+            errs.append(f"as whole-array code: {e2}")
+        chk.ob("F3-density-sum", fn, name, None, f"kernel outside the extractable fragment: {'; '.join(errs)}", file=rel, func=name)
+        return
     q, g = args["quad_coeffs"].fn, args["grid"].fn
     nc = Symbol("n0_quad_coeffs", integer=True, positive=True)
-    term = q(l) * (g(i, j, k, l) - (args["feq"].fn(i, l) if perturbed else 0))
+    row = i
+    if perturbed:
+        row, coff = _row_of_equilibrium(sp.sympify(got), args["feq"].fn, i, (j, k, l))
+        KERNEL_ROW_OFFSET[name] = coff
+    term = q(l) * (g(i, j, k, l) - (args["feq"].fn(row, l) if perturbed else 0))
     spec = sp.Sum(term, (l, 0, nc - 1))
     ok = alg_equal(got, spec)
     chk.ob("F3-density-sum", fn, "rho[i,j,k] = sum_l w_l (f[i,j,k,l]" + (" - f_eq[i,l])" if perturbed else ")"), ok,
@@ -129,10 +810,722 @@ def equilibrium_same_quadrature(chk):
             func="DensityFinder.getPerturbedRho")
 
 
+def inline_sibling_delegations(mod, cls_name):
+    """a method whose whole body is `return self.other(<its own parameters / constants>)` (one method delegating to its sibling with
+    an argument bound) is given the sibling's body with the parameters bound and tests on the bound constants folded: the merged code
+    path is read as the two methods it stands for.  Done on the in-memory tree of this run only."""
+    import copy
+    from ..core import clone
+    try:
+        cls_ = mod.cls(cls_name)
+    except AnalysisError:
+        return []
+    methods = {st.name: st for st in cls_.body if isinstance(st, ast.FunctionDef)}
+    done = []
+    for name, m in methods.items():
+        body = [st for st in m.body if not (isinstance(st, ast.Expr) and isinstance(st.value, ast.Constant))]
+        if len(body) != 1 or not isinstance(body[0], (ast.Expr, ast.Return)) or not isinstance(body[0].value, ast.Call):
+            continue
+        c = body[0].value
+        if not (isinstance(c.func, ast.Attribute) and src(c.func.value) == "self" and c.func.attr in methods and c.func.attr != name):
+            continue
+        callee = methods[c.func.attr]
+        own = {a.arg for a in m.args.args}
+        actuals = list(c.args) + [k.value for k in c.keywords]
+        if any(isinstance(a, ast.Starred) for a in c.args) or any(k.arg is None for k in c.keywords) or \
+                not all(isinstance(a, ast.Constant) or (isinstance(a, ast.Name) and a.id in own) for a in actuals):
+            continue
+        formals = [a.arg for a in callee.args.args][1:]
+        if len(c.args) > len(formals) or any(k.arg not in formals for k in c.keywords):
+            continue
+        bind = dict(zip(formals, c.args))
+        bind.update({k.arg: k.value for k in c.keywords})
+        for f_, d_ in zip(formals[len(formals) - len(callee.args.defaults):], callee.args.defaults):
+            bind.setdefault(f_, d_)
+        assigned = {n.id for n in ast.walk(callee) if isinstance(n, ast.Name) and isinstance(n.ctx, ast.Store)}
+        if any(f_ not in bind for f_ in formals) or (assigned & set(formals)):
+            continue
+        new_body = clone([st for st in callee.body if not (isinstance(st, ast.Expr) and isinstance(st.value, ast.Constant))])
+
+        class Bind(ast.NodeTransformer):
+            def visit_Name(self, n):
+                if isinstance(n.ctx, ast.Load) and n.id in bind:
+                    return copy.deepcopy(bind[n.id]) if not hasattr(bind[n.id], "_parent") else clone(bind[n.id])
+                return n
+
+        def fold(stmts):
+            out = []
+            for st in stmts:
+                st = Bind().visit(st)
+                if isinstance(st, ast.If):
+                    t = st.test
+                    val = None
+                    if isinstance(t, ast.Constant):
+                        val = bool(t.value)
+                    elif isinstance(t, ast.UnaryOp) and isinstance(t.op, ast.Not) and isinstance(t.operand, ast.Constant):
+                        val = not bool(t.operand.value)
+                    if val is not None:
+                        out.extend(fold_inner(st.body if val else st.orelse))
+                        continue
+                out.append(st)
+            return out
+
+        def fold_inner(stmts):
+            res = []
+            for st in stmts:
+                if isinstance(st, ast.If) and isinstance(st.test, ast.Constant):
+                    res.extend(fold_inner(st.body if st.test.value else st.orelse))
+                else:
+                    res.append(st)
+            return res
+        doc = [st for st in m.body if isinstance(st, ast.Expr) and isinstance(st.value, ast.Constant)]
+        m.body = doc + (fold(new_body) or [ast.Pass()])
+        ast.fix_missing_locations(m)
+        done.append(f"{cls_name}.{name} <- {cls_name}.{callee.name}({', '.join(f'{k}={src(v)}' for k, v in bind.items())})")
+    if done:
+        mod._link()
+    return done
+
+
+def kernel_reached(chk, fn, c, kname, m):
+    """the density is what the kernel computes on EVERY path of the method: an early return before the kernel call, or a branch
+    around it, hands back whatever the grid held (or what that path stored instead)"""
+    from ..core import guards_of, enclosing_stmt
+    cst = enclosing_stmt(c)
+    skips = []
+    for r in ast.walk(fn):
+        if isinstance(r, ast.Return) and r.lineno < c.lineno and not any(r in set(ast.walk(x)) for x in [cst]):
+            gs = [(t, pol) for t, pol, k in guards_of(r) if k in ("if", "while")]
+            if gs:
+                skips.append((r, gs))
+    for t, pol, k in guards_of(c):
+        if k != "if":
+            continue
+        # the other arm of the test: does it call a kernel too?
+        node = cst
+        while node is not None and not (isinstance(parent_of(node), ast.If) and parent_of(node).test is t):
+            node = parent_of(node)
+        if node is None:
+            continue
+        iff = parent_of(node)
+        other = iff.orelse if node in iff.body else iff.body
+        if not any(isinstance(x, ast.Call) and isinstance(x.func, ast.Name) and x.func.id in ("get_rho", "get_perturbed_rho")
+                   for st in other for x in ast.walk(st)) and not any(isinstance(x, ast.Raise) for st in other for x in ast.walk(st)):
+            skips.append((iff, [(t, not pol)]))
+    if not skips:
+        chk.ob("E2-kernel-reached", c, f"DensityFinder.{m}: {kname} on every path", True,
+               "no early return and no branch around the kernel call: the density grid is always what the kernel computes",
+               file=U.POISSON, func=f"DensityFinder.{m}")
+        return
+    for node, gs in skips:
+        cond = " and ".join(("" if pol else "not ") + f"({src(t)[:70]})" for t, pol in gs)
+        blk_stmts = []
+        par = parent_of(node)
+        for f_ in ("body", "orelse"):
+            b_ = getattr(par, f_, None)
+            if isinstance(b_, list) and node in b_:
+                blk_stmts = b_[:b_.index(node)]
+        if isinstance(node, ast.If):
+            blk_stmts = node.orelse if gs[0][1] is False and node.test is gs[0][0] else node.body
+        stores = [st for st in blk_stmts if isinstance(st, (ast.Assign, ast.AugAssign)) and
+                  any("rho" in src(t_) for t_ in (st.targets if isinstance(st, ast.Assign) else [st.target]))]
+        approx = any(isinstance(x, ast.Call) and src(x.func).split(".")[-1] in ("allclose", "isclose", "norm", "array_equal", "array_equiv")
+                     for t, _ in gs for x in ast.walk(t)) or \
+            any(isinstance(x, ast.Compare) and any(isinstance(o, (ast.Lt, ast.LtE, ast.Gt, ast.GtE)) for o in x.ops) and
+                any(isinstance(y, ast.Constant) and isinstance(y.value, float) for y in ast.walk(x)) for t, _ in gs for x in ast.walk(t))
+        if stores or approx:
+            chk.ob("E2-kernel-reached", node, f"DensityFinder.{m}: {kname} on every path", False,
+                   f"when `{cond}` the method returns without calling {kname}" +
+                   (f" after `{src(stores[0])[:50]}`" if stores else "") + ": on that path the density grid is not the velocity integral of "
+                   "the distribution but " + ("the value stored there" if stores else "whatever it held before") +
+                   (" (the test is a comparison up to a tolerance: a small perturbation is treated as none, so the map is neither exact "
+                    "nor linear)" if approx else ""), file=U.POISSON, func=f"DensityFinder.{m}")
+        else:
+            chk.ob("E2-kernel-reached", node, f"DensityFinder.{m}: {kname} on every path", None,
+                   f"when `{cond}` the method does not call {kname}: whether the density grid is still the velocity integral on that path "
+                   "is not decided", file=U.POISSON, func=f"DensityFinder.{m}")
+
+
+def quadrature_system(chk):
+    """the weights solve the TRANSPOSED interpolation system with the integrals of the basis functions on the right-hand side
+    (sum_i q_i B_j(x_i) = int B_j): on every solve reached from get_quadrature_coefficients (helper methods of the class followed)
+    the right-hand side is computed from the stored integrals of the basis - data flow through locals, in-place updates, helper
+    parameters and helper results - and the system is the transposed one"""
+    rel, q = U.INTERP, "SplineInterpolator1D.get_quadrature_coefficients"
+    fn = chk.func(rel, q)
+    methods = chk.mod(rel).methods("SplineInterpolator1D")
+    group, todo = [fn], [fn]
+    while todo:
+        f_ = todo.pop()
+        for c in ast.walk(f_):
+            if isinstance(c, ast.Call) and isinstance(c.func, ast.Attribute) and src(c.func.value) == "self" and c.func.attr in methods \
+                    and methods[c.func.attr] not in group:
+                group.append(methods[c.func.attr])
+                todo.append(methods[c.func.attr])
+
+    def is_solve(c):
+        return isinstance(c, ast.Call) and ((isinstance(c.func, ast.Attribute) and c.func.attr in ("solve", "_solveFunc", "gbtrs", "solve_banded"))
+                                            and not (src(c.func.value) == "self" and c.func.attr in methods))
+    solves = [(g, c) for g in group for c in ast.walk(g) if is_solve(c)]
+    if not solves:
+        chk.ob("E3-quadrature-system", fn, "M^T q = integrals of the basis", None, "no solve call found in the method", file=rel, func=q)
+        return
+
+    def flows(e, ctx, seen=()):
+        """does the expression (in method ctx) read the stored integrals, through locals, in-place updates, parameters, helpers?"""
+        for n in ast.walk(e):
+            if isinstance(n, ast.Attribute) and "integral" in n.attr.lower():
+                return True
+            if isinstance(n, ast.Call) and isinstance(n.func, ast.Attribute) and src(n.func.value) == "self" and n.func.attr in methods and \
+                    ("ret", n.func.attr) not in seen:
+                h = methods[n.func.attr]
+                if any(isinstance(r, ast.Return) and r.value is not None and flows(r.value, h, seen + (("ret", n.func.attr),)) for r in ast.walk(h)):
+                    return True
+            if isinstance(n, ast.Name) and isinstance(n.ctx, ast.Load) and (ctx.name, n.id) not in seen:
+                sn = seen + ((ctx.name, n.id),)
+                for d in ast.walk(ctx):
+                    tg = d.targets if isinstance(d, ast.Assign) else [d.target] if isinstance(d, (ast.AugAssign, ast.AnnAssign)) else []
+                    for t in tg:
+                        base = t
+                        while isinstance(base, (ast.Subscript, ast.Attribute)):
+                            base = base.value
+                        if isinstance(base, ast.Name) and base.id == n.id and getattr(d, "value", None) is not None and flows(d.value, ctx, sn):
+                            return True
+                    # written through a call: np.add.at(x, idx, values), np.copyto(x, values), x.fill(...), np.add(a, b, out=x)
+                    if isinstance(d, ast.Expr) and isinstance(d.value, ast.Call):
+                        cargs = list(d.value.args) + [k.value for k in d.value.keywords]
+                        recv = d.value.func.value if isinstance(d.value.func, ast.Attribute) else None
+                        if any(isinstance(a, ast.Name) and a.id == n.id for a in cargs + ([recv] if recv is not None else [])) and \
+                                any(flows(a, ctx, sn) for a in cargs if not (isinstance(a, ast.Name) and a.id == n.id)):
+                            return True
+                params = [a.arg for a in ctx.args.args]
+                if n.id in params and ctx is not fn:
+                    k = params.index(n.id) - 1
+                    for g in group:
+                        for c in ast.walk(g):
+                            if isinstance(c, ast.Call) and isinstance(c.func, ast.Attribute) and src(c.func.value) == "self" and \
+                                    c.func.attr == ctx.name:
+                                act = c.args[k] if 0 <= k < len(c.args) else next((kw.value for kw in c.keywords if kw.arg == n.id), None)
+                                if act is not None and flows(act, g, sn):
+                                    return True
+        return False
+    def unresolved(e, ctx, seen=()):
+        """calls in the data flow of e that are neither numpy / builtin operations nor methods of the class that are followed"""
+        import builtins
+        out = []
+        plain = {"breaks", "knots", "greville", "nbasis", "degree", "ncells", "periodic", "cubic_uniform", "dtype", "size", "shape"}
+        for n in ast.walk(e):
+            if isinstance(n, ast.Attribute) and "basis" in src(n.value).lower() and n.attr not in plain and "integral" not in n.attr.lower():
+                out.append(src(n))              # an attribute of the basis this rule does not know: it may hold the integrals
+            if isinstance(n, ast.Call):
+                f = src(n.func)
+                known = f.startswith(("np.", "numpy.")) or (isinstance(n.func, ast.Name) and hasattr(builtins, n.func.id)) or \
+                    (isinstance(n.func, ast.Attribute) and n.func.attr in ("copy", "astype", "reshape", "ravel", "flatten", "sum")) or \
+                    (isinstance(n.func, ast.Attribute) and src(n.func.value) == "self" and n.func.attr in methods)
+                if not known:
+                    out.append(src(n))
+            if isinstance(n, ast.Name) and isinstance(n.ctx, ast.Load) and (ctx.name, n.id) not in seen:
+                for d in ast.walk(ctx):
+                    if isinstance(d, ast.Assign) and any(isinstance(t, ast.Name) and t.id == n.id for t in d.targets):
+                        out += unresolved(d.value, ctx, seen + ((ctx.name, n.id),))
+        return out
+    for g, c in solves:
+        args = list(c.args) + [k.value for k in c.keywords if k.arg not in ("trans", "overwrite_b", "overwrite_ab")]
+        rhs = [a for a in args if not (isinstance(a, ast.Attribute) and isinstance(a.value, ast.Name) and a.value.id == "self" and
+                                       a.attr in ("_bmat", "_l", "_u", "_ipiv", "_splu"))]
+        tr = [k for k in c.keywords if k.arg == "trans"]
+        transposed = bool(tr) and (src(tr[0].value) in ("'T'", '"T"', "True", "1"))
+        reads = any(flows(a, g) for a in rhs)
+        opaque = [] if reads else [x for a in rhs for x in unresolved(a, g)]
+        if not reads and opaque:
+            chk.ob("E3-quadrature-system", c, f"{src(c)[:70]}", None,
+                   f"the right-hand side `{src(rhs[-1])[:50]}` is computed with `{opaque[0][:50]}`, which is not followed: whether it yields the "
+                   "integrals of the basis functions is not decided", file=rel, func=getattr(g, "_qual", q))
+            continue
+        if reads and transposed:
+            ok, why = True, "the right-hand side is computed from the stored integrals of the basis and the transposed system is solved"
+        elif not reads and rhs:
+            ok, why = False, (f"the right-hand side `{src(rhs[-1])[:60]}` of `{src(c)[:50]}` is not computed from the integrals of the basis "
+                              "functions (the stored `integrals` of the spline basis are not read on this path): the weights then integrate "
+                              "the spline exactly only where that quantity happens to equal the integrals (uniform knots, say)")
+        elif reads and tr and not transposed and src(tr[0].value) in ("'N'", '"N"', "False", "0"):
+            ok, why = False, (f"`{src(c)[:60]}` solves the interpolation system itself (trans={src(tr[0].value)}), not its transpose: the "
+                              "result is not a set of quadrature weights")
+        elif reads:
+            ok, why = None, f"`{src(c)[:60]}`: whether the transposed system is solved was not recognised"
+        else:
+            ok, why = None, f"`{src(c)[:60]}` not recognised"
+        chk.ob("E3-quadrature-system", c, f"{src(c)[:70]}", ok, why, file=rel, func=getattr(g, "_qual", q))
+
+
+def parent_of(n):
+    return getattr(n, "_parent", None)
+
+
+class _TableRoles:
+    """stands for the Check while the index-space rules shared with C05 run: when engine C cannot type the axes of the equilibrium
+    table (built with operations it does not model) but the symbolic reading of the constructor has established that entry [i, j]
+    is f_eq(r_i, v_j) over all r and v points, the axes of the table are [global r, global v] by that result"""
+
+    def __init__(self, chk, tab_ok):
+        object.__setattr__(self, "_chk", chk)
+        object.__setattr__(self, "_tab_ok", tab_ok)
+
+    def __getattr__(self, k):
+        return getattr(self._chk, k)
+
+    def __setattr__(self, k, v):
+        setattr(self._chk, k, v)
+
+    def ob(self, rule, node, construct, ok, msg="", **kw):
+        if rule == "C-coindexed-axes" and ok is False:
+            # engine C pairs the arrays of a kernel by the NAMES of its loop variables; when the formula extracted from that kernel
+            # equals the specification (every array indexed by the right variable: rule F3-density-sum), a mismatch found by names is
+            # an artefact of re-ordered / renamed loops and is not reported as a violation
+            for kname in ("get_perturbed_rho", "get_rho"):
+                if str(construct).startswith(kname + ":") and any(o.rule == "F3-density-sum" and o.func == kname and o.status == "HOLDS"
+                                                                  for o in self._chk.obs):
+                    ok = None
+                    msg = ("pairing of the kernel's arrays by loop-variable names: " + msg[:160] + " - not confirmed by the extracted formula "
+                           "of the kernel, which indexes every array as the specification does (F3-density-sum holds); which rows the "
+                           "caller passes is decided by E2-row-offset / C-window")
+        if rule == "C-table-roles" and ok is None and self._tab_ok is True and "self._fEq" in str(construct):
+            ok, msg = True, ("engine C does not type the axes of the table (" + msg[:80] + "); the symbolic reading of the constructor "
+                             "established entry [i, j] = f_eq(r_i, v_j) over all r points and all v points: axes [global r, global v]")
+        return self._chk.ob(rule, node, construct, ok, msg, **kw)
+
+
+# ------------------------------------------------------------------ content of the equilibrium table
+class _V1:
+    """1-D array seen through its element: f(k), n entries"""
+
+    def __init__(self, f, n):
+        self.f, self.n = f, n
+
+
+class _T2:
+    """2-D table filled column range by column range: segs = [(lo, hi, f(i, j))] for the columns lo <= j < hi"""
+
+    def __init__(self, nrows, ncols):
+        self.nrows, self.ncols, self.segs = nrows, ncols, []
+
+    def elem(self):
+        if len(self.segs) == 1 and sp.simplify(self.segs[0][0]) == 0 and sp.simplify(self.segs[0][1] - self.ncols) == 0:
+            return self.segs[0][2]
+        raise Undecided("a table filled in several pieces is read as a whole")
+
+
+class _View:
+    """columns lo <= j < hi of a table (all rows), possibly in reversed order"""
+
+    def __init__(self, tab, lo, hi, rev=False):
+        self.tab, self.lo, self.hi, self.rev = tab, lo, hi, rev
+
+    @property
+    def width(self):
+        return self.hi - self.lo
+
+    def col(self, j):
+        return (self.hi - 1 - j) if self.rev else (self.lo + j)
+
+
+class _B2:
+    """2-D value seen through its element f(i, j) (vectors placed on an axis with [:, None] / [None, :] and what is computed from
+    them by element-wise operations)"""
+
+    def __init__(self, f):
+        self.f = f
+
+
+_PURE = {}
+
+
+def closed_form(chk, fname, argvals):
+    """value of a scalar function of initialiser_funcs at symbolic arguments, its helper functions written out (symbolic forward
+    substitution of the function body)"""
+    mod = chk.mod(U.INITF)
+    if not mod.has(fname):
+        raise Undecided(f"function `{fname}` of the initialiser module")
+    fn = mod.func(fname)
+    params = [a.arg for a in fn.args.args]
+    if len(params) != len(argvals) or any(not isinstance(a, sp.Basic) for a in argvals):
+        raise Undecided(f"arguments of `{fname}`")
+    ex = SymExec(fn, dict(zip(params, argvals)), calls={})
+    ex.module_funcs = {q: f for q, f in mod.functions().items() if "." not in q}
+    ex.run()
+    if ex.ret is None or not isinstance(ex.ret, sp.Basic):
+        raise Undecided(f"`{fname}` does not return a scalar formula")
+    return ex.ret
+
+
+class TableModel:
+    """symbolic reading of DensityFinder.__init__: which value every entry of the equilibrium table gets.  Arrays are element
+    functions, a table is a list of column ranges with their element function, `feq_vector(T, R, V, ...)` sets T[i, j] =
+    f_eq(R[i], V[j]); both arms of an `if` are read (one pass per combination of decisions).  Nothing is executed."""
+
+    def __init__(self, init, fv_formals, decisions, chk=None):
+        self.init, self.formals, self.decisions = init, fv_formals, list(decisions)
+        self.chk = chk
+        self.taken = 0
+        self.env = {}
+        params = [a.arg for a in init.args.args]
+        self.eta = params[3] if len(params) > 3 else "eta_grid"
+        self.const = params[4] if len(params) > 4 else "constants"
+        for p_ in params[1:]:
+            self.env[p_] = Symbol(p_)
+        self.more = False            # an `if` beyond the decisions given: another pass is needed
+
+    def ev(self, e):
+        if isinstance(e, ast.Constant) and isinstance(e.value, (int, float)) and not isinstance(e.value, bool):
+            return sp.Integer(e.value) if isinstance(e.value, int) else sp.Rational(repr(e.value))
+        if isinstance(e, ast.Name):
+            if e.id in self.env:
+                return self.env[e.id]
+            raise Undecided(f"unknown name `{e.id}`")
+        if isinstance(e, ast.Attribute):
+            if src(e) in self.env:
+                return self.env[src(e)]
+            if src(e.value) == self.const:
+                return Symbol(src(e))
+            if src(e) in ("np.pi", "numpy.pi", "math.pi"):
+                from ..symx import PI
+                return PI
+            if e.attr == "size":
+                v = self.ev(e.value)
+                if isinstance(v, _V1):
+                    return v.n
+            if e.attr == "shape":
+                v = self.ev(e.value)
+                if isinstance(v, _T2):
+                    return (v.nrows, v.ncols)
+                if isinstance(v, _V1):
+                    return (v.n,)
+            raise Undecided(f"attribute `{src(e)[:40]}`")
+        if isinstance(e, (ast.List, ast.Tuple)):
+            return tuple(self.ev(x) for x in e.elts)
+        if isinstance(e, ast.UnaryOp) and isinstance(e.op, ast.USub):
+            v = self.ev(e.operand)
+            if isinstance(v, sp.Basic):
+                return -v
+            if isinstance(v, _B2):
+                return _B2(lambda i, j, v=v: -v.f(i, j))
+        if isinstance(e, ast.BinOp):
+            a, b = self.ev(e.left), self.ev(e.right)
+            ops = {ast.Add: lambda x, y: x + y, ast.Sub: lambda x, y: x - y, ast.Mult: lambda x, y: x * y,
+                   ast.Div: lambda x, y: x / y, ast.Pow: lambda x, y: x ** y}
+            if isinstance(a, sp.Basic) and isinstance(b, sp.Basic):
+                if type(e.op) in ops:
+                    return ops[type(e.op)](a, b)
+                if isinstance(e.op, ast.FloorDiv):
+                    return sp.floor(a / b)
+            if (isinstance(a, _B2) or isinstance(b, _B2)) and all(isinstance(x, (_B2, sp.Basic)) for x in (a, b)) and type(e.op) in ops:
+                op = ops[type(e.op)]
+                return _B2(lambda i, j, a=a, b=b, op=op: op(a.f(i, j) if isinstance(a, _B2) else a, b.f(i, j) if isinstance(b, _B2) else b))
+            raise Undecided(f"operator in `{src(e)[:40]}`")
+        if isinstance(e, ast.Subscript):
+            if src(e.value) == self.eta and isinstance(e.slice, ast.Constant) and isinstance(e.slice.value, int):
+                d = e.slice.value
+                X = sp.Function(f"x{d}")
+                return _V1((lambda k, X=X: X(k)), Symbol(f"N{d}", integer=True, positive=True))
+            base = self.ev(e.value)
+            if isinstance(base, tuple) and isinstance(e.slice, ast.Constant):
+                return base[e.slice.value]
+            if isinstance(base, _V1):
+                return self.slice1(base, e.slice, e)
+            if isinstance(base, (_T2, _View)):
+                return self.slice2(base, e.slice, e)
+            raise Undecided(f"subscript `{src(e)[:40]}`")
+        if isinstance(e, ast.Call):
+            f = src(e.func)
+            if f in ("np.empty", "np.zeros", "np.ndarray") and e.args:
+                shp = self.ev(e.args[0])
+                if isinstance(shp, tuple) and len(shp) == 2 and all(isinstance(x, sp.Basic) for x in shp):
+                    return _T2(shp[0], shp[1])
+                raise Undecided(f"`{src(e)[:40]}`")
+            if f == "len" and len(e.args) == 1:
+                v = self.ev(e.args[0])
+                if isinstance(v, _V1):
+                    return v.n
+            if f in ("np.empty_like", "np.zeros_like") and len(e.args) == 1:
+                v = self.ev(e.args[0])
+                if isinstance(v, _T2):
+                    return _T2(v.nrows, v.ncols)
+                if isinstance(v, _View):
+                    return _T2(v.tab.nrows, v.width)
+            if f == "int" and len(e.args) == 1:
+                return self.ev(e.args[0])
+            name = f.split(".")[-1]
+            args = [self.ev(a) for a in e.args]
+            if e.keywords or not all(isinstance(a, (_B2, sp.Basic)) for a in args):
+                raise Undecided(f"call `{src(e)[:40]}`")
+            fun = None
+            if f in ("np.exp", "np.sqrt", "np.tanh", "np.real", "np.cos", "np.sin") and len(args) == 1:
+                fun = {"exp": sp.exp, "sqrt": sp.sqrt, "tanh": sp.tanh, "real": (lambda x: x), "cos": sp.cos, "sin": sp.sin}[name]
+            elif self.chk is not None and (f == name or f.split(".")[0] in ("init", "initialiser_funcs")) and \
+                    self.chk.mod(U.INITF).has(name):
+                fun = (lambda *xs, name=name: closed_form(self.chk, name, list(xs)))
+            if fun is None:
+                raise Undecided(f"call `{src(e)[:40]}`")
+            if any(isinstance(a, _B2) for a in args):
+                return _B2(lambda i, j, args=args, fun=fun: fun(*[a.f(i, j) if isinstance(a, _B2) else a for a in args]))
+            return fun(*args)
+        raise Undecided(f"expression `{src(e)[:40]}`")
+
+    def bounds(self, sl, n):
+        if sl.step is not None:
+            st = self.ev(sl.step)
+            if not (st == -1 and sl.lower is None and sl.upper is None):
+                raise Undecided("strided slice")
+            return sp.Integer(0), n, True
+        lo = self.ev(sl.lower) if sl.lower is not None else sp.Integer(0)
+        hi = self.ev(sl.upper) if sl.upper is not None else n
+        if not (isinstance(lo, sp.Basic) and isinstance(hi, sp.Basic)):
+            raise Undecided("slice bounds")
+        if lo.is_number and lo < 0:
+            lo = n + lo
+        if hi.is_number and hi < 0:
+            hi = n + hi
+        return lo, hi, False
+
+    def slice1(self, v, sl, e):
+        if isinstance(sl, ast.Tuple) and len(sl.elts) == 2:
+            kinds = ["s" if (isinstance(x, ast.Slice) and x.lower is None and x.upper is None and x.step is None) else
+                     "n" if (isinstance(x, ast.Constant) and x.value is None) or src(x) in ("np.newaxis", "numpy.newaxis") else "?" for x in sl.elts]
+            if kinds == ["s", "n"]:
+                return _B2(lambda i, j, v=v: v.f(i))
+            if kinds == ["n", "s"]:
+                return _B2(lambda i, j, v=v: v.f(j))
+            raise Undecided(f"index `{src(e)[:40]}`")
+        if not isinstance(sl, ast.Slice):
+            k = self.ev(sl)
+            if isinstance(k, sp.Basic):
+                return v.f(v.n + k if (k.is_number and k < 0) else k)
+            raise Undecided(f"index `{src(e)[:40]}`")
+        lo, hi, rev = self.bounds(sl, v.n)
+        if rev:
+            return _V1((lambda k, v=v: v.f(v.n - 1 - k)), v.n)
+        return _V1((lambda k, v=v, lo=lo: v.f(lo + k)), hi - lo)
+
+    def slice2(self, base, sl, e):
+        items = sl.elts if isinstance(sl, ast.Tuple) else None
+        if not items or len(items) != 2 or not (isinstance(items[0], ast.Slice) and items[0].lower is None and items[0].upper is None
+                                                and items[0].step is None) or not isinstance(items[1], ast.Slice):
+            raise Undecided(f"`{src(e)[:40]}` is not a range of whole columns")
+        view = base if isinstance(base, _View) else _View(base, sp.Integer(0), base.ncols)
+        lo, hi, rev = self.bounds(items[1], view.width)
+        if rev:
+            return _View(view.tab, view.lo, view.hi, not view.rev)
+        if view.rev:
+            return _View(view.tab, view.hi - hi, view.hi - lo, True)
+        return _View(view.tab, view.lo + lo, view.lo + hi, False)
+
+    def read(self, v):
+        """element function (i, j) of a table or view used as a value"""
+        if isinstance(v, _T2):
+            return v.elem(), v.ncols
+        if isinstance(v, _View):
+            f = None
+            for lo, hi, g in v.tab.segs:
+                if sp.simplify(lo - v.lo) == 0 and sp.simplify(hi - v.hi) == 0:
+                    f = g
+            whole = None
+            try:
+                whole = v.tab.elem()
+            except Undecided:
+                pass
+            f = f or whole
+            if f is None:
+                raise Undecided("a view that does not coincide with one filled range is read")
+            return (lambda i, j, f=f, v=v: f(i, v.col(j))), v.width
+        raise Undecided("value is not a table")
+
+    def write(self, target, g, width):
+        """columns of the target get element function g(i, j) (j relative to the target)"""
+        view = target if isinstance(target, _View) else _View(target, sp.Integer(0), target.ncols)
+        if sp.simplify(view.width - width) != 0:
+            raise Undecided(f"{width} columns are stored into a range of {view.width}")
+        tab = view.tab
+        if view.rev:
+            h = (lambda i, j, g=g, view=view: g(i, view.hi - 1 - j))
+        else:
+            h = (lambda i, j, g=g, view=view: g(i, j - view.lo))
+        tab.segs = [s_ for s_ in tab.segs if not (sp.simplify(s_[0] - view.lo) == 0 and sp.simplify(s_[1] - view.hi) == 0)]
+        for lo, hi, _ in tab.segs:
+            if not (sp.simplify(hi - view.lo).is_nonpositive or sp.simplify(view.hi - lo).is_nonpositive or
+                    sp.simplify(hi - view.lo) == 0 or sp.simplify(view.hi - lo) == 0):
+                raise Undecided("column ranges that may overlap are stored")
+        tab.segs.append((view.lo, view.hi, h))
+
+    def stmt(self, st):
+        if isinstance(st, ast.Expr) and isinstance(st.value, ast.Constant):
+            return
+        if isinstance(st, (ast.Pass, ast.Assert, ast.Import, ast.ImportFrom)):
+            return
+        if isinstance(st, ast.If):
+            if self.taken >= len(self.decisions):
+                self.more = True
+                self.decisions.append(True)
+            arm = self.decisions[self.taken]
+            self.taken += 1
+            self.block(st.body if arm else st.orelse)
+            return
+        if isinstance(st, ast.Expr) and isinstance(st.value, ast.Call) and src(st.value.func).split(".")[-1] == "feq_vector":
+            c = st.value
+            b = agree.bind_call(c, self.formals)
+            if b is None or any(f_ not in b for f_ in self.formals):
+                raise Undecided("arguments of feq_vector")
+            T, R, V = self.ev(b[self.formals[0]]), self.ev(b[self.formals[1]]), self.ev(b[self.formals[2]])
+            if not (isinstance(T, (_T2, _View)) and isinstance(R, _V1) and isinstance(V, _V1)):
+                raise Undecided("feq_vector is not given a table and two point arrays")
+            nrows = T.nrows if isinstance(T, _T2) else T.tab.nrows
+            width = T.ncols if isinstance(T, _T2) else T.width
+            if sp.simplify(nrows - R.n) != 0 or sp.simplify(width - V.n) != 0:
+                raise Undecided(f"feq_vector fills a {nrows} x {width} table from {R.n} radii and {V.n} velocities")
+            cs = [self.ev(b[f_]) for f_ in self.formals[3:]]
+            self.write(T, (lambda i, j, R=R, V=V, cs=cs: FEQ(R.f(i), V.f(j), *cs)), width)
+            return
+        if isinstance(st, ast.Assign) and len(st.targets) == 1:
+            t = st.targets[0]
+            if isinstance(t, ast.Subscript):
+                tgt = self.ev(t)
+                if isinstance(tgt, (_T2, _View)):
+                    g, w = self.read(self.ev(st.value))
+                    self.write(tgt, g, w)
+                    return
+                raise Undecided(f"store `{src(st)[:40]}`")
+            try:
+                v = self.ev(st.value)
+            except Undecided:
+                v = None                    # something this model does not follow (the weights, say): the name stays unknown
+            if isinstance(t, ast.Name):
+                if v is None:
+                    self.env.pop(t.id, None)
+                else:
+                    self.env[t.id] = v
+            elif isinstance(t, ast.Attribute) and src(t.value) == "self":
+                if v is None:
+                    self.env.pop(src(t), None)
+                else:
+                    self.env[src(t)] = v
+            elif isinstance(t, ast.Tuple) and isinstance(v, tuple) and len(v) == len(t.elts) and all(isinstance(x, ast.Name) for x in t.elts):
+                for x, y in zip(t.elts, v):
+                    self.env[x.id] = y
+            return
+        if isinstance(st, ast.Expr):
+            return
+        raise Undecided(f"statement `{src(st)[:40]}`")
+
+    def block(self, stmts):
+        for st in stmts:
+            self.stmt(st)
+
+
+def equilibrium_table_content(chk, init, fv):
+    """every entry [i, j] of the table the kernels read is f_eq(r_i, v_j) with the constants in their roles, on every path of the
+    constructor -> True / False / None (decided?)"""
+    formals = [a.arg for a in fv.args.args]
+    expected = {"CN0": "CN0", "kN0": "kN0", "deltaRN0": "deltaRN0", "rp": "rp", "Cti": "CTi", "kti": "kTi", "deltaRti": "deltaRTi"}
+    if len(formals) != 10 or any(f_ not in expected for f_ in formals[3:]):
+        return None
+    todo, verdicts, seen = [[]], [], 0
+    i, j = Symbol("i", integer=True), Symbol("j", integer=True)
+    X0, X3 = sp.Function("x0"), sp.Function("x3")
+    N0, N3 = Symbol("N0", integer=True, positive=True), Symbol("N3", integer=True, positive=True)
+    while todo and seen < 16:
+        dec = todo.pop()
+        seen += 1
+        tm = TableModel(init, formals, dec, chk)
+        cname = tm.const
+        spec = FEQ(X0(i), X3(j), *[Symbol(f"{cname}.{expected[f_]}") for f_ in formals[3:]])
+        try:
+            tm.block(init.body)
+        except Undecided as e:
+            verdicts.append((None, f"the construction of the table is outside the interpreted fragment: {e}", init))
+            continue
+        if tm.more:
+            k = len(dec)
+            full = tm.decisions
+            # the pass took the true arm of every test beyond `dec`: queue the passes that take the false arm of one of them
+            for n_ in range(k, len(full)):
+                todo.append(full[:n_] + [False])
+        path = "".join("T" if d_ else "F" for d_ in tm.decisions) or "-"
+        T = tm.env.get("self._fEq")
+        if isinstance(T, _B2):
+            # a whole table computed by broadcasting the r points along the rows and the v points along the columns
+            t2 = _T2(N0, N3)
+            t2.segs = [(sp.Integer(0), N3, T.f)]
+            T = t2
+        if not isinstance(T, _T2):
+            verdicts.append((None, f"self._fEq is not obtained as a table (path {path})", init))
+            continue
+        if sp.simplify(T.nrows - N0) != 0 or sp.simplify(T.ncols - N3) != 0:
+            verdicts.append((None, f"the table has {T.nrows} x {T.ncols} entries, not (number of r points) x (number of v points)", init))
+            continue
+        segs = sorted(T.segs, key=lambda s_: sp.default_sort_key(s_[0]))
+        # cover [0, N3): order the ranges by following the chain of bounds
+        chain, at = [], sp.Integer(0)
+        rest = list(T.segs)
+        while rest:
+            nxt = [s_ for s_ in rest if sp.simplify(s_[0] - at) == 0]
+            if len(nxt) != 1:
+                break
+            chain.append(nxt[0])
+            rest.remove(nxt[0])
+            at = nxt[0][1]
+        if rest or sp.simplify(at - N3) != 0:
+            verdicts.append((None, f"the column ranges that are filled ({[(str(a), str(b)) for a, b, _ in T.segs]}) were not shown to cover "
+                                   f"the table (path {path})", init))
+            continue
+        bad = None
+        for lo, hi, f in chain:
+            got = f(i, j)
+            same = sp.simplify(got - spec) == 0
+            if not same and (not got.has(FEQ) or got.atoms(sp.Function) - spec.atoms(sp.Function)):
+                # written with the profile functions instead of feq_vector: compare the formulas with f_eq written out
+                try:
+                    ex_g = got.replace(FEQ, lambda *a: closed_form(chk, "f_eq", list(a)))
+                    ex_s = spec.replace(FEQ, lambda *a: closed_form(chk, "f_eq", list(a)))
+                    same = alg_equal(ex_g, ex_s) or sp.simplify(ex_g / ex_s - 1) == 0
+                    if not same:
+                        bad = (f"for the columns {lo} <= j < {hi} the entry [i, j] is {str(ex_g)[:260]}; the equilibrium the kernels "
+                               f"subtract is f_eq(r_i, v_j) = {str(ex_s)[:260]} (x0 = r points, x3 = v points)")
+                        break
+                    continue
+                except Undecided:
+                    pass
+            if not same:
+                bad = (f"for the columns {lo} <= j < {hi} the entry [i, j] is {got}, the kernels need {spec} (x0 = r points, x3 = v "
+                       "points)" + (": the value at another velocity point is stored, which is the same only if the v points are placed "
+                                    "symmetrically about 0 point by point" if got.has(X3) and not got.has(X3(j)) else ""))
+                break
+        verdicts.append((bad is None, bad or "", init))
+    if seen >= 16 and todo:
+        verdicts.append((None, "too many branches in the constructor", init))
+    if any(v is False for v, _, _ in verdicts):
+        why = "; ".join(m for v, m, _ in verdicts if v is False)
+        ok = False
+    elif any(v is None for v, _, _ in verdicts):
+        why = "; ".join(m for v, m, _ in verdicts if v is None)
+        ok = None
+    else:
+        ok, why = True, f"on each of the {len(verdicts)} path(s) of the constructor every entry [i, j] is f_eq(r_i, v_j) with the constants in their roles"
+    chk.ob("E2-table-content", init, "self._fEq[i, j] = f_eq(r_i, v_j)", ok, why, file=U.POISSON, func="DensityFinder.__init__")
+    return ok
+
+
 def run(chk):
+    merged = inline_sibling_delegations(chk.mod(U.POISSON), "DensityFinder")
+    if merged:
+        chk.note("merged code paths read as the methods they stand for: " + "; ".join(merged))
     chk.explanation = (
-        "Engine F: the density kernels compute rho[i,j,k] = sum_l w_l (f[i,j,k,l] - f_eq[i,l]) (resp. without f_eq) and "
-        "feq_vector fills f_eq(r_i, v_j); engine C: the equilibrium table is [global r, global v], looked up with the global "
+        "Engine F: the density kernels compute rho[i,j,k] = sum_l w_l (f[i,j,k,l] - f_eq[i,l]) (resp. without f_eq), read either "
+        "as element loops or as whole-array numpy code (broadcasting, einsum / dot / matmul / tensordot / sum over an axis, out=: every "
+        "array is its generic element, a contraction a symbolic Sum; a store into rho.real / rho.imag of a possibly complex rho is a "
+        "partial write), and "
+        "feq_vector fills f_eq(r_i, v_j); the constructor of DensityFinder is read symbolically (tables as column ranges with their "
+        "element function, both arms of every test): every entry [i, j] of the equilibrium table is f_eq(r_i, v_j) on every path; the "
+        "kernel call is reached on every path of getRho / getPerturbedRho (no early return or branch that stores something else); a "
+        "method that only delegates to its sibling with an argument bound is read as the sibling's body with that argument; engine C: the equilibrium table is [global r, global v], looked up with the global "
         "radial indices of the local block, and all kernel arguments indexed by one loop variable cover the same index range; "
         "the weights come from the interpolator of the v-spline, the dimension of the kernel's last axis; the quadrature "
         "computation does not mutate the basis' stored integrals. Exactness on the spline space is C09's numerical part and "
@@ -158,12 +1551,23 @@ def run(chk):
     init = chk.func(U.POISSON, "DensityFinder.__init__")
     equilibrium_same_quadrature(chk)
     calls = [c for c in ast.walk(init) if isinstance(c, ast.Call) and isinstance(c.func, ast.Attribute) and c.func.attr == "feq_vector"]
+    tab_ok = equilibrium_table_content(chk, init, fv)
     if len(calls) != 1:
-        raise AnalysisError("C16: feq_vector call not found in DensityFinder.__init__")
-    agree.check_roles(chk, U.POISSON, "DensityFinder.__init__", calls[0], [a.arg for a in fv.args.args],
-                      {"self._fEq": "surface", "eta_grid[0]": "r_vec", "eta_grid[3]": "vPar"}, const_recv="constants")
+        if tab_ok is None:
+            chk.ob("E2-argument-role", init, "feq_vector(self._fEq, r points, v points, constants)", None,
+                   f"{len(calls)} calls of feq_vector in DensityFinder.__init__: how the equilibrium table is filled was not recognised",
+                   file=U.POISSON, func="DensityFinder.__init__")
+    elif any(isinstance(a, ast.Starred) for a in calls[0].args) or any(k.arg is None for k in calls[0].keywords):
+        # arguments handed over by unpacking: the positional role comparison does not apply
+        chk.ob("E2-argument-role", calls[0], "feq_vector(self._fEq, r points, v points, constants)", True if tab_ok else None,
+               "the arguments are passed by unpacking; the content of the table was established by the symbolic reading of the constructor"
+               if tab_ok else "the arguments are passed by unpacking (`*args` / `**kwargs`): their roles were not followed",
+               file=U.POISSON, func="DensityFinder.__init__")
+    else:
+        agree.check_roles(chk, U.POISSON, "DensityFinder.__init__", calls[0], [a.arg for a in fv.args.args],
+                          {"self._fEq": "surface", "eta_grid[0]": "r_vec", "eta_grid[3]": "vPar"}, const_recv="constants")
     # index spaces (shared with C05)
-    density_index_spaces(chk)
+    density_index_spaces(_TableRoles(chk, tab_ok))
     # kernel argument roles at the two call sites
     for m, kname, table in (("getPerturbedRho", "get_perturbed_rho",
                              {"rho.getAllData()": "rho", "grid.getAllData()": "grid", "self._quad_coeffs": "quad_coeffs"}),
@@ -172,8 +1576,17 @@ def run(chk):
         fn = chk.func(U.POISSON, f"DensityFinder.{m}")
         cs = [x for x in ast.walk(fn) if isinstance(x, ast.Call) and isinstance(x.func, ast.Name) and x.func.id == kname]
         if len(cs) != 1:
-            raise AnalysisError(f"C16: expected one call of {kname} in DensityFinder.{m}, found {len(cs)}")
+            chk.ob("E2-argument-role", fn, f"{kname}(rho storage, ..., f storage, weights)", None,
+                   f"{len(cs)} calls of {kname} in DensityFinder.{m}: which kernel integrates f here, and with which arguments, was "
+                   "not recognised", file=U.POISSON, func=f"DensityFinder.{m}")
+            continue
         c = cs[0]
+        if any(isinstance(a, ast.Starred) for a in c.args) or any(k.arg is None for k in c.keywords):
+            chk.ob("E2-argument-role", c, f"{kname}(rho storage, ..., f storage, weights)", None,
+                   "the arguments are passed by unpacking (`*args` / `**kwargs`): their roles were not followed",
+                   file=U.POISSON, func=f"DensityFinder.{m}")
+            continue
+        kernel_reached(chk, fn, c, kname, m)
         agree.check_roles(chk, U.POISSON, f"DensityFinder.{m}", c, [a.arg for a in chk.func(U.PTOOLS, kname).args.args], table)
         # the output argument is the whole storage of the density grid
         bb = agree.bind_call(c, [a.arg for a in chk.func(U.PTOOLS, kname).args.args]) or {}
@@ -194,15 +1607,95 @@ def run(chk):
         if m == "getPerturbedRho":
             b = agree.bind_call(c, [a.arg for a in chk.func(U.PTOOLS, kname).args.args]) or {}
             fe = b.get("feq")
+            # ---- which rows the kernel reads and which rows it is given: the two sides of one convention
+            off = KERNEL_ROW_OFFSET.get(kname, sp.Integer(0))
+            fe_r = _resolved(fn, fe) if fe is not None else None
+            whole_table = fe_r is not None and isinstance(fe_r, ast.Attribute) and src(fe_r) == "self._fEq"
+            rows_sel = fe_r is not None and isinstance(fe_r, ast.Subscript) and src(fe_r.value) == "self._fEq"
+            split_conv = fe_r is not None and isinstance(fe_r, ast.Subscript) and isinstance(fe_r.value, ast.Call) and \
+                src(fe_r.value.func) in ("np.array_split", "np.split", "numpy.array_split") and fe_r.value.args and \
+                src(fe_r.value.args[0]) == "self._fEq" and len(fe_r.value.args) > 1 and not isinstance(fe_r.value.args[1], (ast.List, ast.Tuple))
+            if off == 0 and split_conv:
+                chk.ob("E2-row-offset", fe, f"{kname}: feq[i, l] with feq <- {src(fe)[:60]}", False,
+                       f"the rows of the equilibrium table are chosen with `{src(fe_r)[:70]}`: numpy cuts a table into equal blocks with the "
+                       "larger ones first, which is not how the layout distributes the radial points over the processes (starts / ends of the "
+                       "layout); unless the number of radii is a multiple of the number of processes, some processes subtract the "
+                       "equilibrium of other radii", file=U.POISSON, func=f"DensityFinder.{m}")
+            elif off == 0:
+                if whole_table and tab_ok is not True:
+                    chk.ob("E2-row-offset", fe, f"{kname}: feq[i, l] with feq <- {src(fe)}", None,
+                           f"the kernel reads row i of `feq` for the i-th local radius and is given the whole table `{src(fe_r)}`; which radii "
+                           "the rows of that table belong to was not established", file=U.POISSON, func=f"DensityFinder.{m}")
+                elif whole_table:
+                    chk.ob("E2-row-offset", fe, f"{kname}: feq[i, l] with feq <- {src(fe)}", False,
+                           f"the kernel reads row i of `feq` for the i-th LOCAL radius, but it is given the whole table `{src(fe_r)}`, whose "
+                           "row i belongs to the i-th GLOBAL radius: every process whose block does not start at the first radius subtracts "
+                           "the equilibrium of other radii", file=U.POISSON, func=f"DensityFinder.{m}")
+                else:
+                    chk.ob("E2-row-offset", fe or c, f"{kname}: feq[i, l] with feq <- {src(fe) if fe is not None else '?'}", True if rows_sel else None,
+                           "the kernel reads row i and is given the rows selected for the local block (which rows: index-space rules)"
+                           if rows_sel else "the kernel reads row i; the rows it is given were not recognised as a selection from self._fEq",
+                           file=U.POISSON, func=f"DensityFinder.{m}")
+            else:
+                ps = [x for x in off.free_symbols]
+                act = b.get(str(ps[0])) if len(ps) == 1 and off == ps[0] else None
+                act_r = _resolved(fn, act) if act is not None else None
+                while isinstance(act_r, ast.Call) and src(act_r.func) == "int" and len(act_r.args) == 1:
+                    act_r = _resolved(fn, act_r.args[0])
+                first_local = False
+                if isinstance(act_r, ast.Subscript) and src(act_r.slice) == "0":
+                    base = act_r.value
+                    if isinstance(base, ast.Attribute) and base.attr == "starts":
+                        lay = _resolved(fn, base.value)
+                        first_local = src(lay) in ("grid.getLayout(grid.currentLayout)", "grid._layout")
+                    elif src(base) == "grid.getGlobalIdxVals(0)":
+                        first_local = True
+                if act is None:
+                    okr, whyr = None, f"the kernel reads row i + {off}; the actual for that offset was not found at the call"
+                elif first_local and whole_table and tab_ok is not True:
+                    okr, whyr = None, (f"the kernel reads row i + {off} of `{src(fe_r)}`; that this table holds the rows of ALL radii was not "
+                                       "established")
+                elif first_local and whole_table:
+                    okr, whyr = True, (f"the kernel reads row i + {off} of the whole table and is given `{src(act)}`, the global index of the "
+                                       "first local radius: row of the point's own radius")
+                elif first_local and rows_sel:
+                    okr, whyr = False, (f"the kernel adds `{src(act)}` (the global index of the first local radius) to the row index, but it is "
+                                        f"given `{src(fe_r)[:50]}`, the rows already selected for the local block: the offset is applied twice, "
+                                        "so the equilibrium of other radii (or rows past the table) is subtracted")
+                elif whole_table and isinstance(act_r, ast.Constant):
+                    okr, whyr = False, (f"the kernel reads row i + {off} of the whole table but the offset passed is the constant `{src(act)}`: "
+                                        "only the process holding the first radii subtracts the equilibrium of its own radii")
+                else:
+                    okr, whyr = None, f"the kernel reads row i + {off}; offset `{src(act)}` / table `{src(fe) if fe is not None else '?'}` not recognised"
+                chk.ob("E2-row-offset", act or c, f"{kname}: feq[i + {off}, l] with feq <- {src(fe) if fe is not None else '?'}", okr, whyr,
+                       file=U.POISSON, func=f"DensityFinder.{m}")
             fe_x = _resolved(fn, fe) if fe is not None else None
             tabs = {src(a) for a in ast.walk(fe_x) if isinstance(a, ast.Attribute) and isinstance(a.value, ast.Name)
                     and a.value.id == "self"} if fe_x is not None else set()
             okf = True if "self._fEq" in tabs else None
             whyf = "the equilibrium rows come from the precomputed table"
             if okf is None and tabs:
-                okf = False
-                whyf = (f"the equilibrium argument `{src(fe_x)[:60]}` is taken from {sorted(tabs)}, not from the table self._fEq that the "
-                        "constructor fills with f_eq(r_i, v_j): what is subtracted is not the equilibrium on the quadrature points")
+                # another attribute: follow its definitions in the class (rows of the table kept under another name, or the table
+                # itself filled by feq_vector under that name)
+                cls_ = chk.mod(U.POISSON).cls("DensityFinder")
+                derived, defined = set(), set()
+                for t_ in tabs:
+                    for n_ in ast.walk(cls_):
+                        if isinstance(n_, ast.Assign) and any(src(x) == t_ for x in n_.targets):
+                            defined.add(t_)
+                            if "self._fEq" in src(n_.value):
+                                derived.add(t_)
+                        if isinstance(n_, ast.Call) and isinstance(n_.func, ast.Attribute) and n_.func.attr == "feq_vector" and n_.args and \
+                                src(n_.args[0]) == t_:
+                            derived.add(t_)
+                if derived:
+                    okf, whyf = True, f"the equilibrium rows come from {sorted(derived)}, which the class derives from the precomputed table"
+                elif defined == tabs:
+                    okf = False
+                    whyf = (f"the equilibrium argument `{src(fe_x)[:60]}` is taken from {sorted(tabs)}, not from the table self._fEq that the "
+                            "constructor fills with f_eq(r_i, v_j): what is subtracted is not the equilibrium on the quadrature points")
+                else:
+                    whyf = f"the equilibrium argument `{src(fe_x)[:60]}` reads {sorted(tabs)}, whose definition was not found"
             elif okf is None:
                 whyf = f"the equilibrium argument `{src(fe) if fe is not None else '?'}` is not recognised as rows of the table self._fEq"
             chk.ob("E2-argument-role", fe or c, f"{kname}: feq <- {src(fe) if fe is not None else '?'}", okf, whyf, file=U.POISSON,
@@ -220,11 +1713,16 @@ def run(chk):
                 d_ = [n for n in ast.walk(init) if isinstance(n, ast.Assign) and src(n.targets[0]) == recv.id]
                 recv = d_[0].value if len(d_) == 1 else recv
             if isinstance(recv, ast.Call) and src(recv.func) == "SplineInterpolator1D" and (recv.args or recv.keywords):
-                a0 = recv.args[0] if recv.args else recv.keywords[0].value
+                a0 = _resolved(init, recv.args[0] if recv.args else recv.keywords[0].value)
+                if isinstance(a0, ast.Attribute) and isinstance(a0.value, ast.Name) and a0.value.id == "self":
+                    ad = [n for n in ast.walk(init) if isinstance(n, ast.Assign) and any(src(t) == src(a0) for t in n.targets)]
+                    if len(ad) == 1:
+                        a0 = _resolved(init, ad[0].value)
+                params_ = {a.arg for a in init.args.args}
                 if src(a0) == "bspline":
                     okq = True
-                else:
-                    badq = f"the weights come from an interpolator built on `{src(a0)}`, not on the constructor's v spline `bspline`"
+                elif isinstance(a0, ast.Name) and a0.id in params_ or isinstance(a0, ast.Call):
+                    badq = f"the weights come from an interpolator built on `{src(a0)[:60]}`, not on the constructor's v spline `bspline`"
     chk.pat("E3-weights-source", qc[0] if qc else init, "self._quad_coeffs", okq,
             "weights are the quadrature coefficients of the interpolator built on the constructor's spline", badq, file=U.POISSON,
             func="DensityFinder.__init__")
@@ -234,8 +1732,11 @@ def run(chk):
     dfn = chk.func(U.DRIVER, "main")
     dc = [c for c in ast.walk(dfn) if isinstance(c, ast.Call) and isinstance(c.func, ast.Name) and c.func.id == "DensityFinder"]
     if len(dc) != 1:
-        raise AnalysisError("C16: DensityFinder construction not found in fullSimulation.main")
-    b = agree.bind_call(dc[0], ["degree", "bspline", "eta_grid", "constants"]) or {}
+        chk.ob("E3-weights-dimension", dfn, "DensityFinder(degree, spline of v, ...)", None,
+               f"{len(dc)} constructions of DensityFinder in fullSimulation.main: the spline the weights are built on was not identified",
+               file=U.DRIVER, func="main")
+        dc = [None]
+    b = (agree.bind_call(dc[0], ["degree", "bspline", "eta_grid", "constants"]) or {}) if dc[0] is not None else {}
     sp_arg = b.get("bspline")
     sp_x = _resolved(dfn, sp_arg) if sp_arg is not None else None
     okd, whyd = None, f"the spline handed to DensityFinder, `{src(sp_arg) if sp_arg is not None else '?'}`, is not recognised as `<grid>.getSpline(<dimension>)`"
@@ -252,7 +1753,8 @@ def run(chk):
         else:
             whyd = (f"the spline handed to DensityFinder is `{src(sp_x)}` (dimension {sp_x.args[0].value}) but the kernels integrate over the "
                     f"last axis of the asserted layout, dimension {last} (v): the weights belong to another coordinate")
-    chk.ob("E3-weights-dimension", dc[0], src(dc[0])[:90], okd, whyd, file=U.DRIVER, func="main")
+    if dc[0] is not None:
+        chk.ob("E3-weights-dimension", dc[0], src(dc[0])[:90], okd, whyd, file=U.DRIVER, func="main")
     # no mutation of the stored basis integrals while computing the weights
     imod = chk.mod(U.INTERP)
     gq = chk.func(U.INTERP, "SplineInterpolator1D.get_quadrature_coefficients")
@@ -261,6 +1763,9 @@ def run(chk):
            "the stored basis integrals are only read (copies are modified)" if not muts else
            "; ".join(d for _, d in muts) + " - the next interpolator/DensityFinder built on the same spline gets wrong weights",
            file=U.INTERP, func="SplineInterpolator1D.get_quadrature_coefficients")
+    quadrature_system(chk)
     chk.floor("F3-", 3)
-    chk.floor("C-", 5)
-    chk.floor("E2-argument-role", 10)
+    # the co-indexing obligations come from the element loops of the kernels: whole-array kernels have none (their axis
+    # correspondence is part of the extracted formula), the four obligations on DensityFinder's own indexing always remain
+    chk.floor("C-", 4)
+    chk.floor("E2-argument-role", 6)
